@@ -79,6 +79,10 @@ func verifC07BuildShape(full bool, shape int) *verifMsgModel {
 	} else {
 		m.method = "POST"
 	}
+	trailerShape := shape == 4
+	if trailerShape {
+		shape = 2
+	}
 	if m.method == "CONNECT" {
 		m.method = "GET" // authority-form targets are outside the agreement subset
 	}
@@ -86,7 +90,7 @@ func verifC07BuildShape(full bool, shape int) *verifMsgModel {
 	if shape > 0 {
 		nt = 1
 	}
-	if shape == 3 {
+	if shape == 3 || trailerShape {
 		nt = 0
 	}
 	t := verifBytes("target", nt)
@@ -104,7 +108,7 @@ func verifC07BuildShape(full bool, shape int) *verifMsgModel {
 	if shape == 1 || shape == 2 {
 		nn = 1
 	}
-	if shape == 0 {
+	if shape == 0 || trailerShape {
 		nn = 0
 	}
 	name := verifBytes("hname", nn)
@@ -113,11 +117,11 @@ func verifC07BuildShape(full bool, shape int) *verifMsgModel {
 	}
 	hn := "X" + string(name) // never collides with a framing header
 	nv := 2
-	if shape == 0 {
+	if shape == 0 || trailerShape {
 		nv = 0
 	}
 	val := verifBytes("hvalue", nv)
-	if shape == 0 {
+	if shape == 0 || trailerShape {
 		val = []byte("v")
 	}
 	for _, c := range val {
@@ -182,13 +186,27 @@ func verifC07BuildShape(full bool, shape int) *verifMsgModel {
 		w = append(w, byte('0'+n), '\r', '\n', '\r', '\n')
 		w = append(w, m.body...)
 	case 2:
+		declU := false
 		m.trailer = verifChoose("trailer", 2) == 1
+		if trailerShape {
+			m.trailer = true
+			shape = 4
+		}
 		w = append(w, "Transfer-Encoding: chunked\r\n"...)
 		if m.trailer {
-			w = append(w, "Trailer: X-T\r\n"...)
+			// field names are case-insensitive: declared in any case, one name or a list
+			decl := 0
+			if shape == 4 {
+				decl = verifChoose("trailer_decl", 4)
+			}
+			w = append(w, []string{"Trailer: X-T\r\n", "Trailer: x-t\r\n", "Trailer: X-t\r\n", "Trailer: x-T, X-U\r\n"}[decl]...)
+			declU = decl == 3
 		}
 		w = append(w, '\r', '\n')
-		nch := 1 + verifChoose("chunks", 2)
+		nch := 1
+		if shape != 4 {
+			nch = 1 + verifChoose("chunks", 2)
+		}
 		for i := 0; i < nch; i++ {
 			sz := []int{1, 10, 17}[verifChoose("chunk_size", 3)]
 			data := verifBytes("chunk", sz)
@@ -207,7 +225,16 @@ func verifC07BuildShape(full bool, shape int) *verifMsgModel {
 		}
 		w = append(w, '0', '\r', '\n')
 		if m.trailer {
-			w = append(w, "X-T: tv\r\n"...)
+			tc := 0
+			if shape == 4 {
+				tc = verifChoose("trailer_case", 2)
+			}
+			w = append(w, []string{"X-T: tv\r\n", "x-t: tv\r\n"}[tc]...)
+			if declU {
+				// every declared trailer is sent (nbio insists on it; a declared
+				// but absent trailer is outside the agreement subset)
+				w = append(w, "X-U: uv\r\n"...)
+			}
 		}
 		w = append(w, '\r', '\n')
 	}
@@ -291,7 +318,9 @@ func verifC07Run(full bool, shape int) {
 	})
 	conn := &verifNetConn{failAt: -1}
 	p := NewParser(conn, e, NewServerProcessor(), false, nil)
+	panics0 := verifPanicCount()
 	err := p.Parse(append([]byte(nil), m.wire...))
+	verifAssertD(verifPanicCount() == panics0, "no-panic-inside-parse", "nbio")
 	verifAssertD(err == nil, "well-formed-message-accepted", "nbio")
 	want := 1
 	if m.next {
@@ -323,6 +352,11 @@ func verifHarness_C07_headers_and_persistence() {
 
 func verifHarness_C07_content_length_bodies() {
 	verifC07Run(false, 1)
+	verifAssert(false, "witness")
+}
+
+func verifHarness_C07_trailer_declarations() {
+	verifC07Run(false, 4)
 	verifAssert(false, "witness")
 }
 
